@@ -229,6 +229,11 @@ func (g *G) wrapTx(msgs []sdk.Msg, note string, aminoOK bool) *world.TxStep {
 	signers, how := g.signersFor(msgs, exec, g.bias("right-signers", 80), aminoOK && exec == 0)
 	ts := &world.TxStep{Signers: signers, Fee: g.fee("fee"), Exec: exec, Note: note + " signers=" + how, Proofs: g.proofs}
 	g.proofs = nil
+	if g.chance("low-gas", g.bias("low-gas", 7)) {
+		// a gas limit that runs out in the ante handler or in the middle of a message handler
+		ts.Gas = uint64(pick(g, "gas-limit", []int{30000, 50000, 70000, 90000, 120000, 160000}))
+		ts.Note += " low-gas"
+	}
 	for _, m := range msgs {
 		ts.Msgs = append(ts.Msgs, world.EncodeMsg(m))
 	}
